@@ -11,8 +11,16 @@ discarded - remap must not remember anything from one call to the next).
 The Lean driver evaluates the same program on its model of the same graph.
 
 Atoms in a case (JSON): null, int, str, {"y": hex} = bytes, {"f": n} = the float n/2, {"b": 0|1} = bool,
-{"o": n} = the n-th of OPAQUE (Ellipsis, a complex number, the builtin function len).
+{"o": n} = the n-th of OPAQUE (Ellipsis, a complex number, the builtin function len, and three objects with an
+unusual __eq__ / __hash__ / __bool__ / __len__).
+
+Round 5: a case may carry `form` (the ARGUMENT FORM of the judged call: positional / keyword / explicit-default
+arguments, every value of remap's `trace` keyword, research's positional `reraise`, an omitted query) and `pre`
+(a history of earlier calls - other instances, other entry points, calls that fail).  Neither occurs in the model:
+the outcome must be the one of the plain call.
 """
+import contextlib
+import io
 import itertools
 
 from bv.common import Property, Failure, time_limit, exc_name, CaseTimeout
@@ -35,12 +43,57 @@ def kind_of(v):
     return KIND_OF.get(type(v))
 
 
-# further scalar objects ({"o": n} in a case): all truthy, each == only to itself
-OPAQUE = [Ellipsis, complex(1, 2), len]
+class AlwaysEq(object):
+    """== to everything (and never !=), fixed hash: a scalar leaf / dict key that defeats `==` where `is` is meant"""
+    def __eq__(self, other):
+        return True
+
+    def __ne__(self, other):
+        return False
+
+    def __hash__(self):
+        return 0x5eed0001
+
+    def __repr__(self):
+        return '<AlwaysEq>'
+
+
+class NeverEq(object):
+    """!= to everything, itself included; fixed hash (found in a dict by identity only)"""
+    def __eq__(self, other):
+        return False
+
+    def __ne__(self, other):
+        return True
+
+    def __hash__(self):
+        return 0x5eed0002
+
+    def __repr__(self):
+        return '<NeverEq>'
+
+
+class FalsyLen(object):
+    """falsy, len() == 0, not a Sequence / Mapping / Set: a scalar leaf"""
+    def __bool__(self):
+        return False
+
+    def __len__(self):
+        return 0
+
+    def __repr__(self):
+        return '<FalsyLen>'
+
+
+# further scalar objects ({"o": n} in a case), each the same object for the whole run.  The model's atom
+# `other n` is "an object equal to itself only and truthy": for the three unusual ones the harness's own
+# programs never ask for their truth value or compare them with == (see ev_cond)
+OPAQUE = [Ellipsis, complex(1, 2), len, AlwaysEq(), NeverEq(), FalsyLen()]
+ODD = (AlwaysEq, NeverEq, FalsyLen)
 
 
 def is_atom(v):
-    return v is None or type(v) in (int, str, bytes, float, bool, complex, type(Ellipsis), type(len))
+    return v is None or type(v) in (int, str, bytes, float, bool, complex, type(Ellipsis), type(len)) + ODD
 
 
 def dec(a):
@@ -146,7 +199,7 @@ def atom_s(a):
     if type(a) is bool:
         return 'b1' if a else 'b0'
     for n, o in enumerate(OPAQUE):
-        if type(a) is type(o) and a == o:
+        if a is o or (type(a) is type(o) and type(a) not in ODD and a == o):
             return 'o%d' % n
     if type(a) is float and a == a and abs(a) < 1e15 and (a * 2) == int(a * 2):
         return 'f%d' % int(a * 2)
@@ -319,20 +372,20 @@ def ev_cond(cond, p, k, v):
     if name == 'isEmptyCont':
         return kd is not None and len(v) == 0
     if name == 'falsy':
-        return not v
+        return False if type(v) in ODD else not v      # the model's `other n` is truthy
     if name == 'valIs':
         lit = dec(cond[1])
-        return kd is None and type(v) is type(lit) and v == lit
+        return kd is None and same_atom(v, lit)
     if name == 'keyIs':
         lit = dec(cond[1])
-        return type(k) is type(lit) and k == lit
+        return same_atom(k, lit)
     if name == 'keyIsInt':
         return type(k) is int
     if name == 'pathLenGe':
         return len(p) >= cond[1]
     if name == 'pathLastIs':
         lit = dec(cond[1])
-        return len(p) > 0 and type(p[-1]) is type(lit) and p[-1] == lit
+        return len(p) > 0 and same_atom(p[-1], lit)
     raise AssertionError(name)
 
 
@@ -443,13 +496,13 @@ NAMED_PROGS = [
 
 ATOMS = [None, 0, 1, 2, -1, 3, '', 'a', 'b', 's',
          {'y': '6162'}, {'y': ''}, {'y': '00ff'}, {'f': 3}, {'f': 4}, {'f': 0}, {'b': 1}, {'b': 0},
-         10 ** 20, '\u00e9x', {'y': '61'}, 'ab', {'o': 0}, {'o': 1}, {'o': 2}]
+         10 ** 20, '\u00e9x', {'y': '61'}, 'ab', {'o': 0}, {'o': 1}, {'o': 2}, {'o': 3}, {'o': 4}, {'o': 5}]
 # members of sets / frozensets (directly or inside tuples): no str / bytes (their hashes - hence the set's
 # iteration order - differ from process to process), no bool / integral float (1 == 1.0 == True)
 HASH_ATOMS = [None, 0, 1, 2, -1, 3, 7, 10, {'f': 3}, {'f': -1}]
 # dict keys: insertion ordered, so str / bytes are fine; falsy keys ('' b'' 0 None), digit strings (what
 # a dotted-string path would contain), keys equal to a list index
-KEYS = ['a', 'b', 0, 1, None, 'k', 2, '', {'y': ''}, {'y': '6b'}, '0', '1', '10', {'f': 3}, -1, 'a.b']
+KEYS = ['a', 'b', 0, 1, None, 'k', 2, '', {'y': ''}, {'y': '6b'}, '0', '1', '10', {'f': 3}, -1, 'a.b', {'o': 3}, {'o': 4}]
 CONDS = [['always'], ['isNone'], ['isInt'], ['isStr'], ['isCont'], ['isKind', 'd'], ['isKind', 'l'],
          ['isKind', 't'], ['isKind', 's'], ['isKind', 'f'], ['isEmptyCont'], ['falsy'], ['valIs', 1],
          ['valIs', None], ['valIs', 'a'], ['keyIs', 0], ['keyIs', 1], ['keyIs', 'a'], ['keyIs', None],
@@ -463,6 +516,27 @@ ACTS = [['keep'], ['keepPair'], ['drop'], ['drop'], ['incr'], ['setKey', 0], ['s
         ['keyNeg'], ['keyStr'], ['setVal', {'y': '6162'}], ['setVal', {'f': 3}], ['setKey', {'y': ''}],
         ['setKey', '1'], ['setVal', 300]]
 RAISE_NAMES = sorted(RAISE_CLASSES)
+
+
+# --------------------------------------------------------------------------- argument forms (round 5)
+
+# every value remap's `trace` keyword accepts ('F' = False: see the finding C08-trace-false-rejected).  Not used: a
+# name other than the three events (silently ignored today; a stricter remap may reject it - not a documented form)
+TRACE_FORMS = ['T', 'enter', 'visit', 'exit', 'EX', 'EV', 'lV', 'lEVX', 'sAll', 'empty', 'lempty', 'F']
+
+
+def trace_value(tok):
+    return {'T': True, 'F': False, 'enter': 'enter', 'visit': 'visit', 'exit': 'exit', 'EX': ('enter', 'exit'),
+            'EV': ('enter', 'visit'), 'lV': ['visit'], 'lEVX': ['enter', 'visit', 'exit'],
+            'sAll': set(['enter', 'visit', 'exit']), 'empty': (), 'lempty': []}[tok]
+
+
+def describe_form(form):
+    return ', '.join('%s=%s' % (k, ('%r' % (trace_value(v),)) if k == 'trace' else v) for k, v in sorted(form.items()))
+
+
+PRE_TOKENS = ['scalar', 'selfraise', 'selfdrop', 'enterraise', 'exitraise', 'other', 'otherdrop', 'trace',
+              'research', 'researchraise', 'getpath', 'badkw']
 
 
 # --------------------------------------------------------------------------- independent reference
@@ -515,11 +589,22 @@ def reference_remap(root, visit):
 
 ENTERS = [['dflt'], ['skipKind', 't'], ['skipKind', 'd'], ['skipKind', 'l'], ['skipKind', 'f'], ['rev'],
           ['skipKey', 0], ['skipKey', 'a'], ['skipKey', None], ['asList'], ['depthLimit', 0], ['depthLimit', 1],
-          ['depthLimit', 2]]
+          ['depthLimit', 2], ['fresh'], ['freshgen']]
+# round 5 (object lifetime): `fresh` / `freshgen` hand out a SHALLOW COPY of every mutable container item instead of
+# the item itself (a list built before the new parent / a one-shot generator).  The copies are temporaries: nothing
+# but remap's own stack keeps them alive.  For the tree-level model (values without identity) they are the default.
+FRESH = ('fresh', 'freshgen')
+
+
+def shallow(c):
+    kd = kind_of(c)
+    return KINDS[kd](c) if kd in MUTABLE else c
 EXITS = [['dflt'], ['count'], ['keys'], ['pathLen'], ['keyOld'], ['oldKind']]
 
 
 def same_atom(a, b):
+    if type(a) in ODD or type(b) in ODD:
+        return a is b
     return type(a) is type(b) and a == b
 
 
@@ -531,15 +616,27 @@ def own_exit(old_or_new, new_items):
     return KINDS[kd](v for _k, v in new_items)
 
 
-def make_enter(spec):
-    """a user-written enter callback (does not call boltons' default_enter)"""
+def make_enter(spec, keep=None):
+    """a user-written enter callback (does not call boltons' default_enter); `keep`: a list that collects every
+    temporary object the callback hands out (keeps them alive for as long as the caller holds the list)"""
     name = spec[0]
     lit = dec(spec[1]) if name == 'skipKey' else None
+
+    def copy_of(c):
+        n = shallow(c)
+        if keep is not None and n is not c:
+            keep.append(n)
+        return n
 
     def en(path, key, value):
         kd = kind_of(value)
         if kd is None:
             return value, False
+        if name == 'fresh':
+            items = [(k, copy_of(c)) for k, c in children(value)]
+            return KINDS[kd](), items
+        if name == 'freshgen':
+            return KINDS[kd](), ((k, copy_of(c)) for k, c in children(value))
         if name == 'skipKind' and kd == spec[1]:
             return value, False
         if name == 'depthLimit' and len(path) >= spec[1]:
@@ -583,7 +680,7 @@ def reference_remap_custom(root, visit, enter, exit_):
     def value(v, path, key):
         # `path` is the path of the parent (what enter / exit / visit of this item get)
         if id(v) in memo and kind_of(v) is not None:
-            return memo[id(v)]
+            return memo[id(v)][1]
         new_parent, items = enter(path, key, v)
         if items is False:
             return v
@@ -598,7 +695,7 @@ def reference_remap_custom(root, visit, enter, exit_):
                 r = (k, nc)
             new.append(r)
         out = exit_(path, key, v, new_parent, new)
-        memo[id(v)] = out
+        memo[id(v)] = (v, out)        # keyed by id(): `v` (possibly a temporary handed out by enter) must stay alive
         return out
     new_parent, items = enter((), None, root)
     if items is False:
@@ -607,6 +704,8 @@ def reference_remap_custom(root, visit, enter, exit_):
 
 
 def enter_tok(spec):
+    if spec[0] in FRESH:
+        return 'dflt'
     if len(spec) == 1:
         return spec[0]
     if spec[0] == 'skipKind':
@@ -715,7 +814,7 @@ def tuple_backref_witness(src, dst):
     def go(a, b):
         ka, kb = kind_of(a), kind_of(b)
         if ka is None or kb is None:
-            return None if (ka is None and kb is None and type(a) is type(b) and a == b) else 'other'
+            return None if (ka is None and kb is None and same_atom(a, b)) else 'other'
         if ka == 't' and kb == 't' and len(b) == 0 and len(a) > 0 and any(x is a for x in onpath):
             return 'tuple_backref'
         if ka != kb or len(a) != len(b):
@@ -780,6 +879,23 @@ class C08(Property):
             'research case with a non-empty set is followed by a twin whose oracle skips exactly the recorded set-path '
             'defect (so its correspondence counts); whether research queries / reports the root itself is probed, not '
             'demanded. '
+            'Round 5, FIRST in the stream: (a) every public entry point in every argument form it accepts - remap with each '
+            'value of trace (True, False, each event name, tuples / lists / a set of names, (), []; stdout '
+            'captured and ignored) x 8 programs x 8 shapes, visit positional / by keyword / default_visit passed explicitly, '
+            'enter=default_enter + exit=default_exit passed explicitly, reraise_visit=True passed explicitly, custom enter x '
+            'exit callbacks with tracing on; research with query positional / by keyword / omitted, reraise positional / by '
+            'keyword / left to its default, enter=default_enter explicit; get_path on every reported path with the path as '
+            'tuple / list / dotted string (where every segment survives the round trip through text) and with defaults '
+            'None, 0, empty string, False, (), the root itself and a fresh object, by keyword and positionally. With a form the FIRST '
+            'of the two calls is the plain call and the outcome of the second must be the same (oracle clause '
+            'keyword_dependent). 10% of the random graphs get a random form. (b) `pre`: a history of earlier calls before '
+            'the judged one (remap on a scalar; a visit / enter / exit / query that raises half way through the SAME object; '
+            'another instance kept alive / dropped at once; tracing on; research; failing get_path calls; calls rejected for '
+            'their arguments), each alone and all together, 3% of the random graphs. (c) between the two calls the value the '
+            'first call returned is spoiled by the caller (every fresh mutable container emptied, research\'s list cleared). '
+            '(f) leaves and dict keys with an unusual __eq__ / __hash__ / __bool__ / __len__ (== to everything, != to '
+            'itself, falsy with len 0) under every named program. (g) enter callbacks that hand out TEMPORARY shallow copies '
+            'of the items (list / one-shot generator): only remap\'s own stack keeps them alive. '
             'Non-trivial = container root with at least one nested container and no harness skip; '
             'distinct = distinct (graph, program, mode).')
     ASSUMPTIONS = [
@@ -800,6 +916,13 @@ class C08(Property):
         'set iteration order is taken from the real set object (passed to the model as the item order); rebuilt '
         'sets are compared as sets',
         'identity of empty tuples / frozensets is not observed (CPython shares the empty tuple)',
+        'the argument form of a call (positional / keyword / explicitly passed defaults), remap\'s trace keyword and the '
+        'history of earlier calls do not occur in the model (a pure function of root and callbacks): the implementation is '
+        'held to that on every case that carries `form` / `pre` (the text remap prints when tracing is not judged); the '
+        'dotted-string form of a path is used only where get_path documents it (str keys without a dot in dicts, indices '
+        'into lists / tuples)',
+        'the three objects with an unusual __eq__ / __bool__ / __len__ are, for the model, atoms equal to themselves only and '
+        'truthy: the table-defined programs never ask for their truth value nor compare them with ==',
     ]
     CORRESPONDENCE_NAME = 'C08.Driver (remap/research/get_path models, heap + tree + recursion) vs boltons.iterutils'
 
@@ -880,6 +1003,8 @@ class C08(Property):
     def cases_main(self, budget_s):
         rng = self.rng
         # small, diverse, adversarial families first (a slow machine cut by the budget never loses them)
+        for c in self.round5_families():
+            yield c
         for c in self.round2_families():
             yield c
         for c in self.edge_cases():
@@ -1030,6 +1155,116 @@ class C08(Property):
                         yield mk(nodes, [0], p, mode='Q', reraise=rr)
                         yield mk(nodes, [0], [[0, ['isInt'], ['incr']]] + p, reraise=rr)
 
+    R5_SHAPES = [
+        # {'a': [1, 2, (3, 4)], 'b': {5, 6}, 'c': {'d': frozenset([7])}}
+        ([['d', [['a', [1]], ['b', [3]], ['c', [4]]]], ['l', [1, 2, [2]]], ['t', [3, 4]], ['s', [5, 6]],
+          ['d', [['d', [5]]]], ['f', [7]]], [0]),
+        # [1, None, (None, 2), [], {}]
+        ([['l', [1, None, [1], [2], [3]]], ['t', [None, 2]], ['l', []], ['d', []]], [0]),
+        # x = (None, 2); [x, x, 1]          (shared tuple)
+        ([['l', [[1], [1], 1]], ['t', [None, 2]]], [0]),
+        # l = [l, 5]                        (cycle)
+        ([['l', [[0], 5]]], [0]),
+        # ({1, 2, None},)
+        ([['t', [[1]]], ['s', [1, 2, None]]], [0]),
+        # {None: [7], '': (8,), 0: {'k': None}}   (falsy keys)
+        ([['d', [[None, [1]], ['', [2]], [0, [3]]]], ['l', [7]], ['t', [8]], ['d', [['k', None]]]], [0]),
+        # frozenset({(1, 2), 3})
+        ([['f', [[1], 3]], ['t', [1, 2]]], [0]),
+        # [b'ab', 'cd', 1.5, True, <AlwaysEq>, <NeverEq>, <FalsyLen>]
+        ([['l', [Y(b'ab'), 'cd', {'f': 3}, {'b': 1}, {'o': 3}, {'o': 4}, {'o': 5}, [1]]], ['t', [{'o': 3}, {'o': 5}]]], [0]),
+    ]
+
+    def round5_families(self):
+        """round 5: every public entry point in every argument form it accepts; histories of earlier calls; objects
+        with an unusual __eq__ / __hash__ / __bool__ / __len__; temporaries handed out by an enter callback"""
+        mk = self.mk
+        Q_ALL = [[0, ['always'], ['keep']]]
+        INCR = [[0, ['isInt'], ['incr']]]
+        DROPN = [[0, ['isNone'], ['drop']]]
+        progs = [([], 1, 1), ([], 1, 0), (INCR, 1, 0), (DROPN, 1, 0), ([[0, ['keyIsInt'], ['setKey', 0]]], 1, 0),
+                 ([[0, ['isNone'], ['raise', 'KeyError']]], 0, 0), ([[0, ['isNone'], ['raise', 'IndexError']]], 1, 0),
+                 ([[0, ['isCont'], ['valLen']]], 1, 0)]
+
+        def with_form(c, **form):
+            c['form'] = form
+            return c
+        # (a) remap: every value of `trace` x every way of passing visit / the callbacks / reraise_visit
+        for nodes, root in self.R5_SHAPES:
+            for tr in TRACE_FORMS:
+                for prog, rr, dflt in progs:
+                    yield with_form(mk(nodes, root, prog, reraise=rr, default=dflt), trace=tr)
+                yield with_form(mk(nodes, root, INCR), trace=tr, visit='pos', cb=1, rv=1)
+                yield with_form(mk(nodes, root, [], default=1), trace=tr, visit='dv')
+            for prog, rr, dflt in progs:
+                yield with_form(mk(nodes, root, prog, reraise=rr, default=dflt), visit='pos')
+                yield with_form(mk(nodes, root, prog, reraise=rr, default=dflt), cb=1)
+                yield with_form(mk(nodes, root, prog, reraise=rr, default=dflt), rv=1)
+                yield with_form(mk(nodes, root, prog, reraise=rr, default=dflt), visit='pos', cb=1, rv=1)
+            yield with_form(mk(nodes, root, [], default=1), visit='dv')
+            yield with_form(mk(nodes, root, [], default=1), visit='dvpos')
+            yield with_form(mk(nodes, root, [], default=1), visit='dv', cb=1, rv=1)
+            # research: query positional / by keyword / omitted; reraise positional / by keyword / left out; enter=default
+            for prog, rr in ((Q_ALL, 0), (Q_ALL, 1), ([], 0), ([], 1), (INCR[:0] + [[0, ['isInt'], ['keep']], [0, ['always'], ['drop']]], 0),
+                             ([[0, ['isNone'], ['raise', 'KeyError']]], 0), ([[0, ['isNone'], ['raise', 'KeyError']]], 1)):
+                for form in ({'query': 'pos'}, {'query': 'pos', 'rpos': 1}, {'rdef': 1}, {'cb': 1}, {'query': 'omit'},
+                             {'query': 'pos', 'rpos': 1, 'cb': 1}):
+                    yield with_form(mk(nodes, root, prog, mode='Q', reraise=rr), **form)
+        # mode E (custom enter / exit) with tracing on: an enter that returns a one-shot iterator, a list, a reversed()
+        for nodes, root in self.R5_SHAPES[:3] + self.R5_SHAPES[5:6]:
+            for en in (['asList'], ['rev'], ['skipKey', 0], ['skipKind', 't'], ['freshgen']):
+                for ex in (['dflt'], ['keys'], ['keyOld']):
+                    for tr in ('T', 'enter', 'exit', 'visit', 'sAll'):
+                        c = with_form(mk(nodes, root, INCR, mode='E'), trace=tr)
+                        c['enter'], c['exit'] = en, ex
+                        yield c
+        # (b) a history of earlier calls before the judged one
+        for nodes, root in self.R5_SHAPES[:6]:
+            for tok in PRE_TOKENS:
+                for prog, mode, dflt in (([], 'M', 1), (INCR, 'M', 0), (Q_ALL, 'Q', 0)):
+                    c = mk(nodes, root, prog, mode=mode, default=dflt)
+                    c['pre'] = [tok]
+                    yield c
+            c = mk(nodes, root, DROPN)
+            c['pre'] = list(PRE_TOKENS)
+            yield c
+            c = with_form(mk(nodes, root, INCR), trace='T', visit='pos')
+            c['pre'] = ['trace', 'selfraise', 'other']
+            yield c
+        # (f) objects with an unusual __eq__ / __hash__ / __bool__ / __len__: as leaves of every kind of container
+        # (unhashed positions), == to everything / to nothing as dict keys; under every named program
+        odd = [{'o': 3}, {'o': 4}, {'o': 5}]
+        for a in odd:
+            shapes = [[['l', [a, 1, [1]]], ['t', [a]]], [['d', [['k', a], [0, [1]]]], ['l', [a, None]]],
+                      [['t', [a, [1], a]], ['d', [['x', a]]]]]
+            if a != {'o': 5}:
+                shapes.append([['d', [[a, 1], ['z', [1]]]], ['d', [[a, [2]]]], ['l', [a]]])     # as a dict key, two levels
+            for nodes in shapes:
+                for prog in NAMED_PROGS:
+                    yield mk(nodes, [0], prog)
+                yield mk(nodes, [0], [], default=1)
+                yield mk(nodes, [0], Q_ALL, mode='Q')
+                yield with_form(mk(nodes, [0], INCR), trace='T')
+        # (g) temporaries handed out by an enter callback: shapes with several levels of mutable containers
+        temp_shapes = [
+            # {0: (4, {}), 1: [1, [[]], ([3], {})], 2: 8}
+            ([['d', [[0, [1]], [1, [3]], [2, 8]]], ['t', [4, [2]]], ['d', []], ['l', [1, [4], [6]]], ['l', [[5]]], ['l', []],
+              ['t', [[7], [8]]], ['l', [3]], ['d', []]], [0]),
+            # [[[1], [2]], [[3], [4]], [[5], [6]]]
+            ([['l', [[1], [4], [7]]], ['l', [[2], [3]]], ['l', [1]], ['l', [2]], ['l', [[5], [6]]], ['l', [3]], ['l', [4]],
+              ['l', [[8], [9]]], ['l', [5]], ['l', [6]]], [0]),
+            # {'a': {'x': [1], 'y': {}}, 'b': {'z': [2, [3]]}, 'c': [{'k': []}, {}]}
+            ([['d', [['a', [1]], ['b', [4]], ['c', [7]]]], ['d', [['x', [2]], ['y', [3]]]], ['l', [1]], ['d', []],
+              ['d', [['z', [5]]]], ['l', [2, [6]]], ['l', [3]], ['l', [[8], [10]]], ['d', [['k', [9]]]], ['l', []], ['d', []]], [0]),
+        ]
+        for nodes, root in temp_shapes + self.R5_SHAPES[:2]:
+            for en in (['fresh'], ['freshgen']):
+                for ex in (['dflt'], ['keyOld'], ['oldKind']):
+                    for prog in ([], INCR, DROPN):
+                        c = mk(nodes, root, prog, mode='E', default=1 if not prog else 0)
+                        c['enter'], c['exit'] = en, ex
+                        yield c
+
     def custom_families(self):
         """custom enter / exit callbacks (mode E): fixed shapes x every enter x every exit x programs"""
         shapes = [
@@ -1053,7 +1288,7 @@ class C08(Property):
                  ([[0, ['isNone'], ['raise', 'IndexError']]], 1), ([[0, ['isKind', 't'], ['setKey', 'k']]], 1)]
         for nodes, root in shapes:
             for en in ENTERS:
-                for prog, rr in progs[:4] + progs[6:8]:
+                for prog, rr in (progs[:4] + progs[6:8]) if en[0] not in FRESH else ():
                     c = self.mk(nodes, root, prog, mode='Q', reraise=rr)
                     c['enter'] = en
                     yield c
@@ -1239,12 +1474,35 @@ class C08(Property):
         default = 1 if (mode == 'M' and not prog and rng.random() < 0.7) else 0
         c = self.mk(nodes, root, prog, mode=mode, reraise=0 if rng.random() < 0.2 else 1, default=default)
         if mode == 'E':
-            c['enter'] = rng.choice(ENTERS)
+            # (the copying enters only on acyclic graphs: a copy of a container that contains itself is a new object
+            # every time it is met, the traversal legitimately unfolds for ever)
+            c['enter'] = rng.choice(ENTERS if p_back == 0.0 else ENTERS[:-2])
             c['exit'] = rng.choice(EXITS)
         elif mode == 'Q' and rng.random() < 0.2:
-            c['enter'] = rng.choice(ENTERS)
+            # (not the copying enters: research would report the temporary copies, which get_path cannot return)
+            c['enter'] = rng.choice(ENTERS[:-2])
         if rng.random() < 0.04:
             c['warm'] = self.random_prog(rng)
+        elif rng.random() < 0.10:
+            # round 5: a random argument form (tracing only on graphs that are cheap to print)
+            form = {}
+            if mode != 'Q':
+                if len(nodes) <= 25 and not big and rng.random() < 0.7:
+                    form['trace'] = rng.choice(TRACE_FORMS[:-1])
+                if rng.random() < 0.4:
+                    form['visit'] = rng.choice(['pos', 'dv', 'dvpos'])
+                if rng.random() < 0.3:
+                    form['rv'] = 1
+            else:
+                form['query'] = rng.choice(['pos', 'pos', 'omit', 'kw'])
+                if rng.random() < 0.5:
+                    form[rng.choice(['rpos', 'rdef'])] = 1
+            if rng.random() < 0.3:
+                form['cb'] = 1
+            if form:
+                c['form'] = form
+        if rng.random() < 0.03:
+            c['pre'] = [rng.choice(PRE_TOKENS) for _ in range(rng.randint(1, 3))]
         return c
 
     def adversarial(self, rng, n):
@@ -1368,30 +1626,51 @@ class C08(Property):
         in_containers = containers_of(root)
         prog = case['prog']
         self._custom = {'enter': case.get('enter', ['dflt']), 'exit': case.get('exit', ['dflt'])}
+        form = case.get('form') or None
         hits = {}
         obs = {}
         try:
             # a mutated implementation may loop (and allocate) forever on cyclic input: keep the limit short,
             # and shorter still once timeouts have been seen (normal cases take well under a millisecond)
             with time_limit(2 if self.stats.get('timeouts', 0) < 2 else 0.3):
+                # round 5: a history of earlier calls (other instances, other entry points, other argument forms,
+                # calls that fail) - nothing of it may show in the judged call
+                if case.get('pre'):
+                    held = []
+                    for tok in case['pre']:
+                        self.pre_call(tok, case, root, held)
                 # Every case makes the call TWICE on the same input and reports the second call: remap /
                 # research keep nothing from one call to the next.  `warm` = a different program for the
                 # first call (its outcome is discarded); without it the first call is the same call, and both
                 # outcomes must be identical.  (A defect that keeps state between calls is then reproducible
                 # from the case alone, not only in a process that happened to run other cases before.)
+                # With `form` (round 5) the first call is the PLAIN call (visit by keyword, no trace, nothing
+                # passed that has a default) and the second one the call in the given argument form: the outcome
+                # must not depend on the form.
                 if case.get('warm') is not None:
                     self.one_call(case['mode'], root, in_containers, case['warm'], 0, 1, None)
                     first = None
                 else:
                     first = self.one_call(case['mode'], root, in_containers, prog, case.get('default'),
                                           case['reraise'], None, light=True)
+                    # the caller owns what the first call returned: spoil it (every fresh mutable container
+                    # emptied, the list research returned cleared) before calling again
+                    self.spoil(self._raw, in_containers)
                 obs = self.one_call(case['mode'], root, in_containers, prog, case.get('default'),
-                                    case['reraise'], hits)
+                                    case['reraise'], hits, form=form)
                 if first is not None and self.brief(first) != self.brief(obs):
-                    obs['unstable'] = [self.brief(first), self.brief(obs)]
+                    obs['kwdep' if form else 'unstable'] = [self.brief(first), self.brief(obs)]
+                if case['mode'] == 'E' and self._custom['enter'][0] in FRESH and 'res' in obs:
+                    # the same call with every temporary the enter callback hands out kept alive by the caller
+                    keep = []
+                    alive = self.one_call('E', root, in_containers, prog, case.get('default'), case['reraise'], None,
+                                          light=True, form=form, keep=keep)
+                    obs['res_alive'] = self.brief(alive)
+                    del keep
         except CaseTimeout:
             obs = {'exc': 'CaseTimeout'}
             self.stats['timeouts'] = self.stats.get('timeouts', 0) + 1
+        self._raw = None
         obs['mutated'] = 0 if (labelled(root) == before and
                                set(containers_of(root)) == set(in_containers)) else 1
         for k, v in hits.items():
@@ -1399,88 +1678,277 @@ class C08(Property):
         return obs
 
     @staticmethod
+    def spoil(raw, in_containers):
+        """empty every mutable container of a returned value that is not an object of the input"""
+        if raw is None:
+            return
+        try:
+            for i, v in list(containers_of(raw).items()):
+                if i not in in_containers and kind_of(v) in MUTABLE:
+                    v.clear()
+        except CaseTimeout:
+            raise
+        except Exception:
+            pass
+
+    def pre_call(self, tok, case, root, held):
+        """one earlier call of the history `pre`; whatever it returns or raises is ignored (results the caller
+        would keep are appended to `held`, which lives until the judged call has returned)"""
+        from boltons.iterutils import remap, research, get_path
+
+        def boom(p, k, v):
+            raise KeyError('pre')
+
+        def other():
+            try:
+                return build(case)[0]
+            except Unbuildable:
+                return [None, [1]]
+        try:
+            with contextlib.redirect_stdout(io.StringIO()):
+                if tok == 'scalar':          # a call that fails: scalar root
+                    remap(5)
+                elif tok == 'selfraise':     # a call on the SAME object that fails half way (visit raises)
+                    remap(root, visit=boom)
+                elif tok == 'selfdrop':      # an earlier, different call on the same object, result kept
+                    held.append(remap(root, lambda p, k, v: False))
+                elif tok == 'enterraise':    # fails half way inside enter
+                    seen = []
+
+                    def en(p, k, v):
+                        seen.append(1)
+                        if len(seen) > 2:
+                            raise KeyError('pre')
+                        from boltons.iterutils import default_enter
+                        return default_enter(p, k, v)
+                    remap(root, enter=en)
+                elif tok == 'exitraise':     # fails at the first exit
+                    def ex(p, k, old, new, items):
+                        raise KeyError('pre')
+                    remap(root, exit=ex)
+                elif tok == 'other':         # ANOTHER instance of the same structure, result kept alive
+                    o = other()
+                    held.append(o)
+                    held.append(remap(o, lambda p, k, v: (k, v)))
+                elif tok == 'otherdrop':     # another instance, input and result dropped at once (ids free again)
+                    remap(other())
+                    remap([[1, 2], {'a': (3,)}, {4}])
+                elif tok == 'trace':         # another instance, tracing on
+                    remap(other(), trace=True)
+                elif tok == 'research':
+                    held.append(research(other()))
+                    research(root, lambda p, k, v: k is None, True)
+                elif tok == 'researchraise':
+                    research(root, boom, reraise=True)
+                elif tok == 'getpath':
+                    get_path(root, ('no', 'such', 'path'), None)
+                    get_path(root, 'a.b.c', default=0)
+                    get_path(root, ('no', 'such', 'path'))
+                elif tok == 'badkw':         # calls rejected for their arguments
+                    for f in (lambda: remap(root, bogus=1), lambda: remap(root, visit=None),
+                              lambda: remap(root, trace=5), lambda: research(root, query=None)):
+                        try:
+                            f()
+                        except CaseTimeout:
+                            raise
+                        except Exception:
+                            pass
+                else:
+                    raise AssertionError(tok)
+        except CaseTimeout:
+            raise
+        except Exception:
+            pass
+
+    @staticmethod
     def brief(o):
         if 'exc' in o:
             return '!' + o['exc']
         if 'res' in o:
             return o['res']
-        return ';'.join('%s>%s:%s' % (p, s, st) for p, s, st, _ in o.get('entries', []) if st != 'root') or '-'
+        pst = o.get('plain_st') or [e[2] for e in o.get('entries', [])]
+        return ';'.join('%s>%s:%s' % (e[0], e[1], st) for e, st in zip(o.get('entries', []), pst) if st != 'root') or '-'
 
-    def one_call(self, mode, root, in_containers, prog, default, reraise, hits, light=False):
-        """one remap / research(+get_path) call on the real code -> observation (CaseTimeout passes through)"""
-        from boltons.iterutils import remap, research, get_path, PathAccessError
+    def one_call(self, mode, root, in_containers, prog, default, reraise, hits, light=False, form=None, keep=None):
+        """one remap / research(+get_path) call on the real code -> observation (CaseTimeout passes through).
+        `form`: the argument form of the call (None = the plain one)."""
+        import boltons.iterutils as iu
+        from boltons.iterutils import remap, research
         fn = make_fn(prog, hits)
+        form = form or {}
         obs = {}
+        self._raw = None
         try:
-            if mode == 'E':
-                kw = {}
-                if self._custom['enter'][0] != 'dflt':
-                    kw['enter'] = make_enter(self._custom['enter'])
-                if self._custom['exit'][0] != 'dflt':
-                    kw['exit'] = make_exit(self._custom['exit'])
+            if mode in ('E', 'M'):
+                args, kw = [root], {}
+                vf = form.get('visit', 'kw')
+                if vf in ('dv', 'dvpos') and not (default and not prog):
+                    vf = 'kw'
+                if vf == 'dv':
+                    kw['visit'] = iu.default_visit           # the default passed explicitly
+                elif vf == 'dvpos':
+                    args.append(iu.default_visit)
+                elif default and not prog and vf == 'kw':
+                    pass                                     # remap(root): no visit argument at all
+                elif vf == 'pos':
+                    args.append(fn)
+                else:
+                    kw['visit'] = fn
+                if mode == 'E':
+                    if self._custom['enter'][0] != 'dflt':
+                        kw['enter'] = make_enter(self._custom['enter'], keep)
+                    if self._custom['exit'][0] != 'dflt':
+                        kw['exit'] = make_exit(self._custom['exit'])
+                if form.get('cb'):
+                    kw.setdefault('enter', iu.default_enter)
+                    kw.setdefault('exit', iu.default_exit)
                 if not reraise:
                     kw['reraise_visit'] = False
-                res = remap(root, fn, **kw) if prog or not default else remap(root, **kw)
-                obs['res'] = labelled(res)
-                if light:
-                    return obs
-                obs['plain'] = plain(res) if not has_cycle(res) else None
-            elif mode == 'M':
-                if default:
-                    res = remap(root)
-                elif reraise:
-                    res = remap(root, visit=fn)            # reraise_visit defaults to True
+                elif form.get('rv'):
+                    kw['reraise_visit'] = True               # otherwise left to its default (True)
+                if 'trace' in form:
+                    kw['trace'] = trace_value(form['trace'])
+                    with contextlib.redirect_stdout(io.StringIO()):     # the printed text is not judged
+                        res = remap(*args, **kw)
                 else:
-                    res = remap(root, visit=fn, reraise_visit=False)
+                    res = remap(*args, **kw)
+                self._raw = res
                 obs['res'] = labelled(res)
                 if light:
                     return obs
                 obs['plain'] = plain(res) if not has_cycle(res) else None
-                out_containers = containers_of(res)
-                obs['shared_mutable'] = sorted(LETTER[kind_of(v)] for i, v in out_containers.items()
-                                               if i in in_containers and kind_of(v) in MUTABLE)
-                if keeps_everything(prog) and kind_of(root) is not None:
-                    obs['copy_diff'] = tuple_backref_witness(root, res)
+                if mode == 'M':
+                    out_containers = containers_of(res)
+                    obs['shared_mutable'] = sorted(LETTER[kind_of(v)] for i, v in out_containers.items()
+                                                   if i in in_containers and kind_of(v) in MUTABLE)
+                    if keeps_everything(prog) and kind_of(root) is not None:
+                        obs['copy_diff'] = tuple_backref_witness(root, res)
             else:
-                if self._custom['enter'][0] != 'dflt':
-                    found = research(root, query=fn, reraise=bool(reraise), enter=make_enter(self._custom['enter']))
-                else:
-                    found = research(root, query=fn, reraise=bool(reraise))
-                entries = []
-                for path, value in found:
-                    shallow = atom_s(value) if kind_of(value) is None else '%s%d' % (LETTER[kind_of(value)], len(value))
-                    if value is root and kind_of(root) is not None:
-                        status = 'root'
+                args, kw = [root], {}
+                qf = form.get('query', 'kw')
+                if qf == 'omit' and prog:
+                    qf = 'kw'
+                if qf == 'pos':
+                    args.append(fn)
+                    if form.get('rpos'):
+                        args.append(bool(reraise))           # research(root, query, reraise)
                     else:
-                        try:
-                            g = get_path(root, path)
-                            if g is value or (is_atom(g) and is_atom(value) and type(g) is type(value) and g == value):
-                                status = 'ok'
-                            else:
-                                status = 'neq'
-                        except PathAccessError:
-                            status = 'err'
-                        except CaseTimeout:
-                            raise
-                        except Exception as e:
-                            status = 'exc:' + exc_name(e)
-                        # get_path(root, path, default): the default replaces the PathAccessError, nothing else
-                        try:
-                            d = get_path(root, path, default=ROOT)
-                            if (status == 'err') != (d is ROOT) or (status == 'ok' and d is not g):
-                                status = 'dflt:' + status
-                        except CaseTimeout:
-                            raise
-                        except Exception as e:
-                            status = 'dflt-exc:' + exc_name(e)
-                    entries.append(['/'.join(key_s(a) for a in path), shallow, status,
-                                    self.set_path_kind(root, path, value)])
+                        kw['reraise'] = bool(reraise)
+                elif qf == 'omit':
+                    if reraise:                              # the default query (always true), reraise irrelevant
+                        kw['reraise'] = True
+                else:
+                    kw['query'] = fn
+                    if reraise or not form.get('rdef'):
+                        kw['reraise'] = bool(reraise)        # `rdef`: reraise left to its default (False)
+                if self._custom['enter'][0] != 'dflt':
+                    kw['enter'] = make_enter(self._custom['enter'], keep)
+                elif form.get('cb'):
+                    kw['enter'] = iu.default_enter
+                found = research(*args, **kw)
+                self._raw = found
+                entries = []
+                plain_st = []
+                for n, (path, value) in enumerate(found):
+                    shallow_s = atom_s(value) if kind_of(value) is None else '%s%d' % (LETTER[kind_of(value)], len(value))
+                    if value is root and kind_of(root) is not None:
+                        status = pst = 'root'
+                    else:
+                        pst, status = self.path_status(root, path, value, n, light)
+                    entries.append(['/'.join(key_s(a) for a in path), shallow_s, status,
+                                    self.set_path_kind(root, path, value) if not light else 0])
+                    plain_st.append(pst)
                 obs['entries'] = entries
+                obs['plain_st'] = plain_st
         except CaseTimeout:
             raise
         except Exception as e:
             obs = {'exc': exc_name(e)}
         return obs
+
+    DEFAULTS = (None, 0, '', False, ())
+
+    def path_status(self, root, path, value, n, light=False):
+        """get_path on one reported (path, value), in every argument form get_path accepts: 'ok' (the reported
+        object), 'neq', 'err' (PathAccessError), 'exc:<class>' for the plain call; a prefix `dflt:` / `form:` when a
+        call with a default or with the path in another form (list; dotted string where the segments allow it)
+        behaves differently from the plain call.  Returns (status of the plain call, full status)."""
+        plain_status = self.plain_status(root, path, value)
+        status, g = plain_status
+        if light or status.startswith('exc:'):
+            return status, status
+        return status, self.form_status(root, path, status, g, n)
+
+    @staticmethod
+    def plain_status(root, path, value):
+        from boltons.iterutils import get_path, PathAccessError
+        try:
+            g = get_path(root, path)
+            if g is value or (is_atom(g) and is_atom(value) and same_atom(g, value)):
+                return 'ok', g
+            return 'neq', g
+        except PathAccessError:
+            return 'err', None
+        except CaseTimeout:
+            raise
+        except Exception as e:
+            return 'exc:' + exc_name(e), None
+
+    def form_status(self, root, path, status, g, n):
+        from boltons.iterutils import get_path, PathAccessError
+        # get_path(root, path, default): the default replaces the PathAccessError, nothing else - whatever the
+        # default is (None, falsy values, the root itself, a stored value) and however it is passed
+        dflts = (ROOT, root) + (self.DEFAULTS if n < 4 else (self.DEFAULTS[n % len(self.DEFAULTS)],))
+        try:
+            for i, dv in enumerate(dflts):
+                d = get_path(root, path, dv) if (i + n) % 2 else get_path(root, path, default=dv)
+                if status == 'err':
+                    if d is not dv:
+                        return 'dflt:' + status
+                elif d is not g:
+                    return 'dflt:' + status
+        except CaseTimeout:
+            raise
+        except Exception as e:
+            return 'dflt-exc:' + exc_name(e)
+        # the same path as a list; as a dotted string when every segment survives the round trip through text (a str
+        # without a dot looked up in a dict, an index into a list / tuple)
+        alts = [list(path)]
+        dotted = self.dotted(root, path)
+        if dotted is not None:
+            alts.append(dotted)
+        for alt in alts:
+            try:
+                a = get_path(root, alt)
+                same = status != 'err' and a is g
+            except PathAccessError:
+                same = status == 'err'
+            except CaseTimeout:
+                raise
+            except Exception as e:
+                return 'form-exc:' + exc_name(e)
+            if not same:
+                return 'form:' + status
+        return status
+
+    @staticmethod
+    def dotted(root, path):
+        """the dotted-string spelling of a path, or None when it has none that get_path documents"""
+        if not path:
+            return None
+        cur = root
+        segs = []
+        for seg in path:
+            kd = kind_of(cur)
+            if kd == 'd' and type(seg) is str and seg and '.' not in seg and seg in cur:
+                cur = cur[seg]
+                segs.append(seg)
+            elif kd in ('l', 't') and type(seg) is int and 0 <= seg < len(cur):
+                cur = cur[seg]
+                segs.append(str(seg))
+            else:
+                return None
+        return '.'.join(segs)
 
     @staticmethod
     def set_path_kind(root, path, value):
@@ -1506,7 +1974,7 @@ class C08(Property):
                 return 2 if hit else 0
         if not hit:
             return 0
-        same = cur is value or (is_atom(cur) and is_atom(value) and type(cur) is type(value) and cur == value) \
+        same = cur is value or (is_atom(cur) and is_atom(value) and same_atom(cur, value)) \
             or (kind_of(cur) in ('t', 'f') and kind_of(cur) == kind_of(value) and len(cur) == 0 and len(value) == 0)
         return 1 if same else 2
 
@@ -1549,10 +2017,27 @@ class C08(Property):
             return Failure('nontermination', '%s did not terminate within the time limit' % case['mode'])
         if obs.get('mutated'):
             return Failure('input_mutated', 'the input structure changed during %s' % case['mode'])
-        if obs.get('unstable'):
-            return Failure('call_state', 'two identical %s calls in a row on the same input gave different outcomes: '
-                           'first %s, then %s' % ('remap' if case['mode'] == 'M' else 'research',
+        fresh_enter = case['mode'] == 'E' and case.get('enter', [''])[0] in FRESH
+        if obs.get('unstable') and not fresh_enter:     # (copying enter callbacks: judged in oracle_custom)
+            return Failure('call_state', 'two identical %s calls in a row on the same input gave different outcomes '
+                           '(the value the first call returned was emptied by the caller in between): '
+                           'first %s, then %s' % ('research' if case['mode'] == 'Q' else 'remap',
                                                   obs['unstable'][0], obs['unstable'][1]))
+        if case.get('form'):
+            for k, v in sorted(case['form'].items()):
+                self.bump('form:%s=%s' % (k, v))
+        for tok in case.get('pre') or ():
+            self.bump('pre:' + tok)
+        if obs.get('kwdep') and not fresh_enter:
+            # the outcome must not depend on HOW the arguments are passed, nor on the debugging keyword `trace`
+            form = case['form']
+            name = 'research' if case['mode'] == 'Q' else 'remap'
+            if form.get('trace') == 'F' and obs['kwdep'][1] == '!TypeError' and obs['kwdep'][0] != '!TypeError':
+                return Failure('trace_false_rejected', 'remap(..., trace=False) raises TypeError; the same call without '
+                               'the keyword gives %s' % obs['kwdep'][0])
+            return Failure('keyword_dependent', 'the outcome of %s depends on the argument form %s: the plain call '
+                           '(callback by keyword, no trace, nothing passed that has a default) gives %s, this form gives %s'
+                           % (name, describe_form(form), obs['kwdep'][0], obs['kwdep'][1]))
         if rk is None:
             self.bump('scalar_root')
             return None        # the property speaks about container roots; correspondence-only
@@ -1684,9 +2169,24 @@ class C08(Property):
         except TypeError:
             return None                 # the callbacks produced something unhashable inside a set: no verdict
         got = '!' + obs['exc'] if 'exc' in obs else obs['res']
+        pair = obs.get('unstable') or obs.get('kwdep')      # [outcome of the first call, of the judged call]
+        first_bad = bool(pair) and pair[0] != exp
+        if (got != exp or first_bad) and case['enter'][0] in FRESH and obs.get('res_alive') == exp:
+            if got == exp:
+                got = pair[0]
+            # the call is right as soon as the caller keeps the temporaries alive that enter hands out: remap mistook a
+            # temporary for an object it had rebuilt earlier (same id(), the earlier temporary being dead)
+            return Failure('enter_temp_id_reuse', 'remap with an enter callback that hands out temporary copies of the '
+                           'items returned %s, the recursive rebuild gives %s - and so does remap when the caller keeps '
+                           'the temporaries alive' % (got, exp))
         if got != exp:
             return Failure('custom_callbacks', 'remap with enter=%s exit=%s returned %s, the recursive rebuild with the '
                            'same callbacks gives %s' % (case['enter'], case['exit'], got, exp))
+        if pair:
+            return Failure('call_state' if obs.get('unstable') else 'keyword_dependent',
+                           'two remap calls in a row on the same input (%s) gave different outcomes: first %s, then %s'
+                           % ('identical' if obs.get('unstable') else 'plain, then in the form ' + describe_form(case['form']),
+                              pair[0], pair[1]))
         return None
 
     @staticmethod
@@ -1724,6 +2224,14 @@ class C08(Property):
         # PathAccessError) - not on whether the rest of the call still looks like the model
         return failure.tag == 'research_set_path' and case['mode'] == 'Q'
 
+    def finding_trace_false_rejected(self, case, failure):
+        """remap(..., trace=False) raises TypeError (documented as a bool)"""
+        return failure.tag == 'trace_false_rejected' and (case.get('form') or {}).get('trace') == 'F'
+
+    def finding_enter_temp_id_reuse(self, case, failure):
+        """a temporary container handed out by an enter callback is mistaken for an earlier, dead one (same id)"""
+        return failure.tag == 'enter_temp_id_reuse' and case['mode'] == 'E' and case.get('enter', [''])[0] in FRESH
+
     def finding_tuple_cycle_backref(self, case, failure):
         """a cycle that passes through a tuple: the back reference is rebuilt as ()"""
         # keyed on the defect itself: default callbacks, cyclic input, and the FIRST difference between input and
@@ -1734,6 +2242,12 @@ class C08(Property):
     def shrink(self, case):
         nodes = case['nodes']
         prog = case['prog']
+        if case.get('pre'):
+            for i in range(len(case['pre'])):
+                yield dict(case, pre=case['pre'][:i] + case['pre'][i + 1:])
+        if case.get('form'):
+            for k in sorted(case['form']):
+                yield dict(case, form={a: b for a, b in case['form'].items() if a != k})
         if case.get('warm'):
             # simplified, never removed: a defect that keeps state between calls must stay reproducible from
             # the case alone (without the warm-up call it would fail only in a process that ran other cases)
